@@ -23,6 +23,9 @@ K = 4.0
 _ROW_FRAME = re.compile(r"required from \S?void row\([^\n]*?\[with T = (float|double|long double); int I = (\d+);")
 
 
+WIDE_ROWS = os.path.join(core.VERIF, "calib", "c18_float_wide_rows.txt")
+
+
 def _target(flavour, disabled):
     defines = []
     if disabled:
@@ -104,11 +107,14 @@ def run(tier, seed, flavour="plain", prop="C18"):
     od = core.run_dir(prop, tier)
     binary, disabled, messages = _build(flavour)
     res = core.run_sharded([{"name": "c18_defs", "binary": binary, "nshards": core.NCPU, "out": od,
-                             "args": ["--seed", str(seed), "--tier", tier],
+                             "args": ["--seed", str(seed), "--tier", tier, "--wide_rows", WIDE_ROWS],
                              "env": core.SAN_ENV if flavour == "san" else None}], timeout=3600)
     V.absorb(res)
     m = core.merge_summaries(res)
     C, M, L = m["counters"], m["maxima"], m["lists"]
+    V.assumptions.append("float rows listed in calib/c18_float_wide_rows.txt (calibrated on the tree they were committed with) are also "
+                         "judged over +-100 binades; the other float rows over +-6 decades only, because their intermediate products "
+                         "leave the float range although the result does not")
     table = sorted(L.get("rows_table", []))
     present = sorted(L.get("rows_present", []))
     absent = sorted(L.get("rows_absent", []))
